@@ -21,7 +21,7 @@
     any scalar event with an empty stack (a scalar root): expected_bson_document
 
   `encode` is `none` exactly for a scalar root. What the real encoder refuses beyond that (`representable`): an integer above 2^63-1,
-  text that is not UTF-8, nesting deeper than max_nesting_depth (default 1024). The driver answers "err" for those.
+  text or a member name that is not UTF-8, a member name holding 0x00, nesting deeper than max_nesting_depth (default 1024). The driver answers "err" for those.
   Lengths are written modulo 2^32 as the code does (`static_cast<uint32_t>`); `OKb` keeps totals below 2^31.
 -/
 import JV.Model.Cbor
@@ -106,8 +106,12 @@ mutual
     | (_, x) :: ms => max (depth x) (depthMembers ms)
 end
 
+/-- `visit_key` (as repaired, D89): an element name is a cstring - UTF-8 text without 0x00 - or invalid_utf8_text_string -/
+def nameOK (k : Bytes) : Bool := decide (0 ∉ k) && Spec.Rfc8259.validUtf8 k
+
 mutual
-  /-- no integer above 2^63-1 (number_too_large) and no ill-formed text value (invalid_utf8_text_string) anywhere -/
+  /-- no integer above 2^63-1 (number_too_large), no ill-formed text value and no member name that is not a cstring
+      (invalid_utf8_text_string) anywhere -/
   def scalarsOK : CV → Bool
     | .int i => decide (i < 9223372036854775808)
     | .str s => Spec.Rfc8259.validUtf8 s
@@ -119,7 +123,7 @@ mutual
     | x :: xs => scalarsOK x && scalarsOKList xs
   def scalarsOKMembers : List (Bytes × CV) → Bool
     | [] => true
-    | (_, x) :: ms => scalarsOK x && scalarsOKMembers ms
+    | (k, x) :: ms => nameOK k && scalarsOK x && scalarsOKMembers ms
 end
 
 /-- what the real encoder accepts (the driver answers "err" otherwise) -/
